@@ -213,7 +213,7 @@ func raceWorkMain(args []string) {
 	}
 }
 
-var raceFrameRe = regexp.MustCompile(`(?m)^\s+(/repo/[^\s:]+:\d+)`)
+var raceFrameRe = regexp.MustCompile(`(?m)^\s+(\S*/repo/[^\s:]+\.go:\d+)`)
 
 func runC19(c *Ctx) {
 	c.Rule = "the harness is rebuilt with -race and re-executed as a child with GORACE=log_path: per mix one shared token (unmarshalled, so byte slices are protobuf-allocated; symbol table of 3/5-7/9-15 symbols so that clones have spare capacity), shared parsed check / policy / rule values and one shared parser.New(); G goroutines (8 quick / 16 thorough) each run a random sequence of {AuthorizerFor, Authorize on an own authorizer, Query, String, Code, GetBlockID with new symbols, CreateBlock+Add+Build+Append, Append, Seal, Serialize, RevocationIds, parser.Check on the shared parser} with GOMAXPROCS in 2..16. Violations: any data-race report whose stack touches /repo (file:line pairs recorded), or any goroutine result differing from the sequential result of the same operation. Non-trivial = every mix (distinct seeds, operation sequences and GOMAXPROCS); distinct = distinct mixes."
@@ -275,7 +275,13 @@ func runC19(c *Ctx) {
 			reports++
 			var frames []string
 			for _, m := range raceFrameRe.FindAllStringSubmatch(rep, -1) {
-				frames = append(frames, strings.TrimPrefix(m[1], "/repo/"))
+				f := m[1]
+				for _, marker := range []string{"/repo/"} {
+					if i := strings.LastIndex(f, marker); i >= 0 {
+						f = f[i+len(marker):]
+					}
+				}
+				frames = append(frames, f)
 			}
 			if len(frames) == 0 {
 				continue
